@@ -39,6 +39,20 @@ def tokenL (c : List Nat) (start : Nat) : Option Nat → List Nat
   | some k => (c.drop start).take k
   | none => c.drop start
 
+/-- the `start` a `token` call leaves behind: the index behind the separator found, else `length()` -/
+def tokenNext (c : List Nat) (start : Nat) : Option Nat → Nat
+  | some k => start + k + 1
+  | none => c.length
+
+/-- iterating `token(separators, start)` from `start` while `start < length()` -/
+def tokenIter (seps c : List Nat) : Nat → Nat → List (List Nat)
+  | 0, _ => []
+  | fuel + 1, start =>
+    if start ≥ c.length then []
+    else
+      let hit := strpbrkL (c.drop start) seps
+      tokenL c start hit :: tokenIter seps c fuel (tokenNext c start hit)
+
 /-- `replace(needle, replacement)`: left to right, non-overlapping (`fuel` bounds the number of matches) -/
 def replaceAux (n : List Nat) (r : List Byte) : Nat → List Nat → List Byte
   | 0, h => h.map some
@@ -51,7 +65,8 @@ def replaceAux (n : List Nat) (r : List Byte) : Nat → List Nat → List Byte
 def replaceAll (n : List Nat) (r : List Byte) (h : List Nat) : List Byte :=
   if n = [] then h.map some else replaceAux n r (h.length + 1) h
 
-/-- the new value of the target variable; `none` = not specified here (see Props.lean, OPEN) -/
+/-- the new value of the target variable; `none` = outside the domain of the specification (a call that branches on unspecified chars, a C-string
+    based call on a value containing NUL, `token(const char*, start)` with `start > length()`) -/
 def newVal (regs : Nat → List Nat) (σ : Nat → List Byte) : Op → Option (List Byte)
   | .ctorEmpty _ => some []
   | .attach _ r off len => some ((((regs r).map some).drop off).take len)
